@@ -424,10 +424,13 @@ def unb64tree(d: dict) -> dict:
 # Known findings, replay files, evidence, verdict
 # ------------------------------------------------------------------------------------------------
 def load_known(prop: str):
-    if not KNOWN_FINDINGS_FILE.exists():
-        return []
-    data = json.loads(KNOWN_FINDINGS_FILE.read_text())
-    return [e for e in data.get("findings", []) if e.get("property") == prop]
+    entries = []
+    if KNOWN_FINDINGS_FILE.exists():
+        entries.extend(json.loads(KNOWN_FINDINGS_FILE.read_text()).get("findings", []))
+    # per-property files findings/Cxx.json (a list of entries in the same format), committed like known_findings.json
+    for f in sorted((VERIF / "findings").glob("*.json")) if (VERIF / "findings").is_dir() else []:
+        entries.extend(json.loads(f.read_text()))
+    return [e for e in entries if e.get("property") == prop]
 
 
 def write_replay(ctx: Ctx, kind: str, payload: dict) -> Path:
